@@ -1,12 +1,17 @@
 --------------------------- MODULE Trace_Gillham ---------------------------
 (* Step V for C13: every entry of the four function tables dumped from the *)
 (* implementation must be a value the standard (Gillham.tla) allows.       *)
+(* The tables are functions of their argument: the harness makes every     *)
+(* call a second time, in descending order and without the interleaved     *)
+(* unrelated / truncated calls of the first sweep; the two results of the  *)
+(* code must be equal (again_same).                                        *)
 EXTENDS Gillham, TraceBase
 
 OctalChars(c) == [i \in 1..4 |-> 48 + Digits(c)[i]]
 
 Ok(ev) ==
   /\ ev.out # "panic"
+  /\ ev.again_same = TRUE
   /\ CASE ev.e = "id13" -> ev.out = "ok" /\ ev.y = Packed(ev.x)
        [] ev.e = "gray" ->
             LET ft == PackedFt(ev.x) IN
